@@ -114,7 +114,9 @@ def cases(draw):
     n = draw(st.integers(1, 4))
     rows = [{v: draw(VALUE) for v in ALL_VARS} for _ in range(n)]
     return {"tree": tree, "tight": draw(st.booleans()), "rows": rows,
-            "mode": draw(st.sampled_from(["scalar", "array", "array", "mixed"]))}
+            "mode": draw(st.sampled_from(["scalar", "array", "array", "mixed"])),
+            "route": draw(st.sampled_from(["create", "create", "configure", "ctor"])),
+            "tolerances": draw(st.sampled_from([None, None, None, [0.1, 0.05], [0.0, 0.5], [1.0, 0.0]]))}
 
 
 # ------------------------------------------------------------------------------------------------
@@ -169,7 +171,20 @@ def check_formula(ctx, case) -> None:
     text = rf.to_text(tree, tight)
     ctx.ev()
     engine = mk_engine()
-    f = fl.Function.create("f", text, engine)
+    route = case.get("route") or "create"
+    if route == "create":
+        f = fl.Function.create("f", text, engine)
+    elif route == "configure":  # a term that already holds another loaded formula is configured with this one
+        f = fl.Function.create("f", "2 * x + 1", engine)
+        f.membership(1.0)
+        f.configure(text)
+    else:  # constructor with load=True
+        f = fl.Function("f", text, engine, load=True)
+    ctx.cls("route:" + route)
+    tolerances = case.get("tolerances")
+    if tolerances:  # comparison functions are exact whatever the library's printing / comparison tolerances are
+        fl.settings.atol, fl.settings.rtol = float(tolerances[0]), float(tolerances[1])
+        ctx.cls("non_default_tolerances")
     for o in set(rf.ops_in(tree)):
         ctx.cls("element:" + o)
     ctx.cls("mode:" + mode)
@@ -270,7 +285,8 @@ def bad_cases(draw):
     if tree["k"] in ("num", "var") or (tree["k"] == "fn" and not tree["a"]):
         tree = {"k": "op", "n": "+", "a": [tree, {"k": "num", "v": 1.0}]}
     kind = draw(st.sampled_from(["delete_operand", "add_argument", "remove_argument", "add_paren", "remove_paren"]))
-    return {"tree": tree, "kind": kind, "pick": draw(st.integers(0, 1000)), "tight": draw(st.booleans())}
+    return {"tree": tree, "kind": kind, "pick": draw(st.integers(0, 1000)), "tight": draw(st.booleans()),
+            "route": draw(st.sampled_from(["create", "create", "configure"]))}
 
 
 def break_formula(case):
@@ -335,7 +351,11 @@ def check_bad(ctx, case) -> None:
     ctx.ev()
     ctx.cls("illformed:" + case["kind"])
     try:
-        f = fl.Function.create("f", text, mk_engine())
+        if case.get("route") == "configure":
+            f = fl.Function.create("f", "2 * x + 1", mk_engine())
+            f.configure(text)
+        else:
+            f = fl.Function.create("f", text, mk_engine())
     except (SyntaxError, ValueError) as ex:
         ctx.cls("rejected:" + type(ex).__name__)
         ctx.nt(["bad", text], {"text": text, "kind": case["kind"], "error": str(ex)[:120]})
